@@ -124,45 +124,36 @@ theorem two_le_countP_iff {α : Type} (pr : α → Bool) : ∀ (l : List α),
           rw [List.getElem?_cons_succ] at ha hb
           exact ⟨i', j', by omega, ⟨a, ha, hpa⟩, ⟨b, hb, hpb⟩⟩
 
-/-! ### the scan at ply 1 -/
+/-! ### the scan when every list entry was played over the board -/
 
-theorem scanPly1_list (hash : P → Nat) (qs : List P) (root : P) :
-    qs.map hash ++ [hash root] = (qs ++ [root]).map hash := by simp
-
-/-- **Ply 1, abstractly.**  `qs` are the positions whose hashes were handed to the search (the positions since the last
-    zeroing move, oldest first), `root` the position searched, `new` the position after the root move, `newHmc` its
-    half-move clock.  `key` is identity under the rules.  Hypotheses: the hash separates exactly the `key`-classes on
-    these positions (`hinj`: no collisions; `hwf`: positions equal under the rules carry equal hashes — in particular equal
-    en-passant flags); an earlier occurrence lies at even distance ≥ 4 (`hwin`); the clock covers the list, or the move
-    is zeroing and nothing earlier equals the new position (`hclk`). -/
-theorem scanPly1_iff {K : Type} [DecidableEq K] (key : P → K) (hash : P → Nat)
-    (qs : List P) (root new : P) (newHmc : Int) (multiPV : Bool)
-    (hinj : ∀ q ∈ qs ++ [root], hash q = hash new → key q = key new)
-    (hwf : ∀ q ∈ qs ++ [root], key q = key new → hash q = hash new)
-    (hwin : ∀ (i : Nat) q, (qs ++ [root])[i]? = some q → key q = key new →
-              i + 4 ≤ qs.length + 1 ∧ (qs.length + 1 - i) % 2 = 0)
-    (hclk : ((qs.length : Int) + 1 ≤ newHmc) ∨ ∀ q ∈ qs ++ [root], key q ≠ key new) :
-    scanPly1 (qs.map hash) (hash root) (hash new) newHmc multiPV = true ↔
-      2 ≤ (qs ++ [root]).countP (fun q => decide (key q = key new)) := by
-  unfold scanPly1
-  simp only [scanPly1_list]
+/-- **All entries old.**  `l` are the positions whose hashes are in the list (oldest first), `new` the position tested,
+    `newHmc` its half-move clock.  `key` is identity under the rules.  Hypotheses: the hash separates exactly the
+    `key`-classes on these positions (`hinj`: no collisions; `hwf`: positions equal under the rules carry equal hashes —
+    in particular equal en-passant flags); an earlier occurrence lies at even distance ≥ 4 (`hwin`); the clock covers
+    the list, or nothing in the list equals the new position (`hclk`). -/
+theorem scanOld_iff {K : Type} [DecidableEq K] (key : P → K) (hash : P → Nat)
+    (l : List P) (new : P) (newHmc firstNew : Int)
+    (hfn : (l.length : Int) - 3 ≤ firstNew)
+    (hinj : ∀ q ∈ l, hash q = hash new → key q = key new)
+    (hwf : ∀ q ∈ l, key q = key new → hash q = hash new)
+    (hwin : ∀ (i : Nat) q, l[i]? = some q → key q = key new → i + 4 ≤ l.length ∧ (l.length - i) % 2 = 0)
+    (hclk : ((l.length : Int) ≤ newHmc) ∨ ∀ q ∈ l, key q ≠ key new) :
+    scanOld hash l (hash new) newHmc firstNew = true ↔ 2 ≤ l.countP (fun q => decide (key q = key new)) := by
+  unfold scanOld
   rw [Rep.canClaimDrawRep_iff, two_le_countP_iff]
-  have hlen : ((qs ++ [root]).map hash).length = qs.length + 1 := by simp
-  have hget : ∀ (i : Nat) (q : P), (qs ++ [root])[i]? = some q → ((qs ++ [root]).map hash).getD i 0 = hash q := by
+  have hget : ∀ (i : Nat) (q : P), l[i]? = some q → (l.map hash).getD i 0 = hash q := by
     intro i q hq
     rw [List.getD_eq_getElem?_getD, List.getElem?_map, hq]; rfl
-  have hsome : ∀ i : Nat, i < qs.length + 1 → ∃ q, (qs ++ [root])[i]? = some q := by
+  have hsome : ∀ i : Nat, i < l.length → ∃ q, l[i]? = some q := by
     intro i hi
-    have : i < (qs ++ [root]).length := by simpa using hi
-    exact ⟨(qs ++ [root])[i], List.getElem?_eq_getElem this⟩
-  simp only [hlen, List.length_map]
+    exact ⟨l[i], List.getElem?_eq_getElem hi⟩
   constructor
   · rintro ⟨i, hw, he, hr⟩
     have hw0 := hw
     unfold Rep.InWindow at hw0
     have hi0 : 0 ≤ i := by omega
     rcases hr with hf | ⟨j, hwj, hne, hej⟩
-    · exfalso; split at hf <;> omega
+    · exfalso; omega
     · have hwj0 := hwj
       unfold Rep.InWindow at hwj0
       obtain ⟨a, ha⟩ := hsome i.toNat (by omega)
@@ -177,7 +168,7 @@ theorem scanPly1_iff {K : Type} [DecidableEq K] (key : P → K) (hash : P → Na
   · rintro ⟨i, j, hij, ⟨a, ha, hpa⟩, ⟨b, hb, hpb⟩⟩
     have ka : key a = key new := by simpa using hpa
     have kb : key b = key new := by simpa using hpb
-    have hc : (qs.length : Int) + 1 ≤ newHmc := by
+    have hc : (l.length : Int) ≤ newHmc := by
       rcases hclk with h | h
       · exact h
       · exact absurd ka (h a (List.mem_of_getElem? ha))
@@ -190,5 +181,12 @@ theorem scanPly1_iff {K : Type} [DecidableEq K] (key : P → K) (hash : P → Na
     · rw [Int.toNat_natCast, hget _ _ ha]; exact ea
     · unfold Rep.InWindow; omega
     · rw [Int.toNat_natCast, hget _ _ hb]; exact eb
+
+/-- the ply-1 scan is the all-old scan over the given history plus the root position -/
+theorem scanPly1_eq (hash : P → Nat) (qs : List P) (root : P) (newHash : Nat) (newHmc : Int) (multiPV : Bool) :
+    scanPly1 (qs.map hash) (hash root) newHash newHmc multiPV =
+      scanOld hash (qs ++ [root]) newHash newHmc (qs.length + (if multiPV then 1 else 0)) := by
+  unfold scanPly1 scanOld
+  simp
 
 end Hist
